@@ -14,6 +14,8 @@ import (
 
 type c06Case struct {
 	Cfg CfgLit `json:"config"`
+	// Shape 1: the lists handed over are windows of one backing array with spare capacity, unused ones empty non-nil
+	Shape int `json:"slice_shape,omitempty"`
 }
 
 func cfgEqual(a, b *cors.Config) bool {
@@ -37,6 +39,9 @@ func cfgEqual(a, b *cors.Config) bool {
 
 func c06Judge(k c06Case) *vlib.Failure {
 	cfg := k.Cfg.Config()
+	if k.Shape == 1 {
+		cfg = k.Cfg.ConfigAlt()
+	}
 	m1, err := cors.NewMiddleware(cfg)
 	if err != nil {
 		return nil // not an accepted configuration
@@ -223,8 +228,8 @@ func checkC06(c *vlib.Ctx) (string, string) {
 		c.Nontrivial.Add(1)
 		c.States.Add(4) // m1 and the three states along the RT chain
 		c.Transitions.Add(5)
-		ck.Try(c06Case{l})
-		c.SampleAt(i+1, func() any { return c06Case{l} })
+		ck.Try(c06Case{l, int(i % 2)})
+		c.SampleAt(i+1, func() any { return c06Case{l, int(i % 2)} })
 	})
 	c.Set("configurations_generated", len(fam))
 	c.Set("configurations_accepted", c.Nontrivial.Load())
